@@ -143,11 +143,11 @@ Definition blame (c : vcase) : option repair :=
 
 (* false iff the monitor is false and the given defect is part of the smallest explanation *)
 Definition vrun_blamed (sel : repair -> bool) (r : vrun) : bool :=
-  vrun_mon r || match blame (norm_case (vr_case r)) with Some p => negb (sel p) | None => true end.
+  if vrun_mon r then true else match blame (norm_case (vr_case r)) with Some p => negb (sel p) | None => true end.
 
 (* false iff the monitor is false and no combination of the known defects explains it *)
 Definition vrun_unexplained (r : vrun) : bool :=
-  vrun_mon r || match blame (norm_case (vr_case r)) with Some _ => true | None => false end.
+  if vrun_mon r then true else match blame (norm_case (vr_case r)) with Some _ => true | None => false end.
 
 (* ---------- C10: environment ---------- *)
 
@@ -170,10 +170,12 @@ Definition erun_agree (r : erun) : bool :=
    order is then unknown to the harness) *)
 Record nrun := {
   nr_os : vars;
-  nr_tasks : list tctx;
-  nr_target : nat;
+  nr_groups : list (list tctx);   (* per started task: its own compilation, then those of the tasks it calls *)
+  nr_fixed : nat;                 (* leading groups compiled first in every order (the combining task) *)
+  nr_target : nat * nat;          (* group of the task under test, index of its compilation in the group *)
   nr_parallel : bool;
-  nr_alone_tasks : list tctx;     (* the compilations of the alone run, the target's last *)
+  nr_alone_tasks : list tctx;     (* the compilations of the alone run *)
+  nr_alone_target : nat;
   nr_alone : outputs;
   nr_ctx : outputs;
   nr_defs_before : rows;
@@ -230,8 +232,8 @@ Definition nparams (v : nvariant) : params :=
 Definition target_outputs (v : nvariant) (os : vars) (xs : list tctx) (i : nat) : outputs :=
   nth i (fst (compile_seq (nworld v os) (nparams v) xs empty_shared)) empty_outputs.
 
-Definition alone_outputs (v : nvariant) (r_os : vars) (xs : list tctx) : outputs :=
-  last (fst (compile_seq (nworld v r_os) (nparams v) xs empty_shared)) empty_outputs.
+Definition alone_outputs_at (v : nvariant) (r_os : vars) (xs : list tctx) (i : nat) : outputs :=
+  nth i (fst (compile_seq (nworld v r_os) (nparams v) xs empty_shared)) empty_outputs.
 
 (* all orders of the other tasks before/after the target: each permutation, with the target's new index *)
 Fixpoint insert_all {A} (x : A) (l : list A) : list (list A) :=
@@ -252,12 +254,25 @@ Fixpoint index_of (i : nat) (l : list nat) (k : nat) : nat :=
   | j :: r => if Nat.eqb i j then k else index_of i r (S k)
   end.
 
+(* orders of the started tasks (a task and what it calls stay together) *)
 Definition orders (r : nrun) : list (list nat) :=
-  if nr_parallel r then perms (seq 0 (List.length (nr_tasks r))) else [seq 0 (List.length (nr_tasks r))].
+  let n := List.length (nr_groups r) in
+  if nr_parallel r
+  then map (fun p => seq 0 (nr_fixed r) ++ p)%list (perms (seq (nr_fixed r) (n - nr_fixed r)))
+  else [seq 0 n].
+
+Fixpoint offset_of (groups : list (list tctx)) (g : nat) (order : list nat) : nat :=
+  match order with
+  | [] => 0
+  | j :: rest => if Nat.eqb j g then 0 else List.length (nth j groups []) + offset_of groups g rest
+  end.
 
 Definition ordered_outputs (v : nvariant) (r : nrun) (order : list nat) : outputs :=
-  target_outputs v (nr_os r) (map (fun j => nth j (nr_tasks r) dummy_ctx) order)
-                 (index_of (nr_target r) order 0).
+  target_outputs v (nr_os r) (flat_map (fun j => nth j (nr_groups r) []) order)
+                 (offset_of (nr_groups r) (fst (nr_target r)) order + snd (nr_target r)).
+
+Definition alone_outputs (v : nvariant) (r : nrun) : outputs :=
+  alone_outputs_at v (nr_os r) (nr_alone_tasks r) (nr_alone_target r).
 
 Definition no_variant : nvariant := nv false false false.
 
@@ -267,37 +282,57 @@ Fixpoint pointwise {A} (f : nat -> A -> bool) (i : nat) (l : list A) : bool :=
   match l with [] => true | x :: rest => f i x && pointwise f (S i) rest end.
 
 (* every printed value is the one some order of the compilations gives *)
-Definition some_order (proj : outputs -> list string) (r : nrun) : bool :=
-  pointwise (fun i v => existsb (fun o => String.eqb v (nth i (proj (ordered_outputs no_variant r o)) "!none"))
-                                (orders r)) 0 (proj (nr_ctx r))
-  && existsb (fun o => Nat.eqb (List.length (proj (nr_ctx r))) (List.length (proj (ordered_outputs no_variant r o)))) (orders r).
+Definition some_order_in (cands : list outputs) (proj : outputs -> list string) (obs : outputs) : bool :=
+  pointwise (fun i v => existsb (fun o => String.eqb v (nth i (proj o) "!none")) cands) 0 (proj obs)
+  && existsb (fun o => Nat.eqb (List.length (proj obs)) (List.length (proj o))) cands.
 
 Definition nrun_agree (r : nrun) : bool :=
-  outputs_eqb (nr_alone r) (alone_outputs no_variant (nr_os r) (nr_alone_tasks r))
-  && (if nr_parallel r
-      then some_order o_vars r && some_order o_env r && some_order o_items r && some_order o_defers r
-      else existsb (fun o => outputs_eqb (nr_ctx r) (ordered_outputs no_variant r o)) (orders r)).
+  outputs_eqb (nr_alone r) (alone_outputs no_variant r)
+  && (let cands := map (ordered_outputs no_variant r) (orders r) in
+      if nr_parallel r
+      then some_order_in cands o_vars (nr_ctx r) && some_order_in cands o_env (nr_ctx r)
+           && some_order_in cands o_items (nr_ctx r) && some_order_in cands o_defers (nr_ctx r)
+      else existsb (fun o => outputs_eqb (nr_ctx r) o) cands).
 
 (* the values are those the shell gives in the task's own directory and environment *)
 Definition strong_variant : nvariant := nv5 true true true true true.
 Definition nrun_own (r : nrun) : bool :=
-  outputs_eqb (nr_alone r) (alone_outputs strong_variant (nr_os r) (nr_alone_tasks r)).
+  outputs_eqb (nr_alone r) (alone_outputs strong_variant r).
 Definition nblame_own (r : nrun) : option nvariant :=
-  find (fun v => outputs_eqb (alone_outputs v (nr_os r) (nr_alone_tasks r))
-                             (alone_outputs strong_variant (nr_os r) (nr_alone_tasks r)))
+  find (fun v => outputs_eqb (alone_outputs v r)
+                             (alone_outputs strong_variant r))
        nvariants_by_size.
 Definition nrun_own_blamed (sel : nvariant -> bool) (r : nrun) : bool :=
-  nrun_own r || match nblame_own r with Some v => negb (sel v) | None => true end.
+  if nrun_own r then true else match nblame_own r with Some v => negb (sel v) | None => true end.
 
 (* smallest set of repairs under which every order gives the target its alone outputs *)
 Definition nblame (r : nrun) : option nvariant :=
   find (fun v => forallb (fun o => outputs_eqb (ordered_outputs v r o)
-                                               (alone_outputs v (nr_os r) (nr_alone_tasks r)))
+                                               (alone_outputs v r))
                          (orders r))
        nvariants_by_size.
 
 Definition nrun_blamed (sel : nvariant -> bool) (r : nrun) : bool :=
-  nrun_mon r || match nblame r with Some v => negb (sel v) | None => true end.
+  if nrun_mon r then true else match nblame r with Some v => negb (sel v) | None => true end.
 
 Definition nrun_unexplained (r : nrun) : bool :=
-  nrun_mon r || match nblame r with Some v => nv_dir v || nv_env v || nv_matrix v || nv_dirlate v || nv_defer v | None => false end.
+  if nrun_mon r then true else match nblame r with Some v => nv_dir v || nv_env v || nv_matrix v || nv_dirlate v || nv_defer v | None => false end.
+
+(* all verdicts of one C11 case, computed once: [agree; dir; env; matrix; dirlate; defer; other;
+   own_dir; own_env; own_dirlate; defs] (true = fine) *)
+Definition nrun_status (r : nrun) : list bool :=
+  let b := if nrun_mon r then None else Some (nblame r) in
+  let blamed (sel : nvariant -> bool) :=
+      match b with None => true | Some (Some v) => negb (sel v) | Some None => true end in
+  let other := match b with
+               | None => true
+               | Some (Some v) => nv_dir v || nv_env v || nv_matrix v || nv_dirlate v || nv_defer v
+               | Some None => false
+               end in
+  let bo := if nrun_own r then None else Some (nblame_own r) in
+  let oblamed (sel : nvariant -> bool) :=
+      match bo with None => true | Some (Some v) => negb (sel v) | Some None => true end in
+  [ nrun_agree r; blamed nv_dir; blamed nv_env; blamed nv_matrix; blamed nv_dirlate; blamed nv_defer; other;
+    oblamed nv_dir; oblamed nv_env; oblamed nv_dirlate; nrun_defs r ].
+
+Definition status_at (i : nat) (st : list bool) : bool := nth i st false.
